@@ -11,10 +11,10 @@ import os
 import re
 
 from vf.extract import extract_fn, match_brace, ExtractError
-from vf.unit import Unit, Fn
+from vf.unit import Unit, Fn, project_on
 from units.fri import SPEC as FRI_SPEC
 from units.fold import SPEC as FOLD_SPEC, common
-from units.fchain import stub_fold_one_phase
+from units.fchain import stub_fold_one_phase, stub_final_query_point
 from units.openin import slice_loop_body
 
 HERE = os.path.dirname(os.path.abspath(__file__))
@@ -148,8 +148,18 @@ def unposition(f):
     return f
 
 
+FQ_SPECS = r"""
+/// (same definitions as in unit fchain, where compute_final_query_point is proved against them)
+pub open spec fn selprod<F: Field>(bits: Seq<F>, pw: Seq<F>, n: int) -> F decreases n {
+    if n <= 0 { F::fone() } else { selprod(bits, pw, n - 1).fmul(if bits[n - 1] == F::fone() { pw[n - 1] } else { F::fone() }) }
+}
+pub open spec fn final_bits<F: Field>(bits: Seq<F>, lmh: int, total: int) -> Seq<F> { Seq::new(lmh as nat, |t: int| if t < total { F::fzero() } else { bits[lmh - 1 - (t - total)] }) }
+pub open spec fn imin(a: int, b: int) -> int { if a <= b { a } else { b } }
+"""
+
+
 def build():
-    u = Unit('fquery', ['C07'])
+    u = Unit('fquery', ['C07', 'C20'])
     u.rlimit = 150
     u.assume('fold_one_phase and reconstruct_evals meet the contracts proved for them in units fold / fri (stubs generated from the same contract text / copied from unit fold)')
     u.assume('verify_batch_circuit_from_extension_opened{,_arity4}: ASSUMED contract -- Ok means `sat` gains exactly the native MMCS acceptance of (cap, dimensions, index bits, rows, salts); commitment_cap_rows_from_lifted returns the packed cap of the lifted commitment; the arity-2 variant is under contract in unit vbatchx (there: the explicit level-digest / path / cap relation that `mmcs_opens` abbreviates here), the arity-4 variant is not')
@@ -298,6 +308,29 @@ def build():
         r.before('let phase_idx = found_pos_;', 'proof { if found_pos_ is None { lemma_first_at_none(folded_height_after@, h); } }')
         r.loop('for pos_ in 0..folded_height_after.len()', invariants=[
             ('first_match', '''(found_pos_ matches Some(i) ==> i < pos_ && i == first_at(folded_height_after@, h)) && (found_pos_ is None ==> forall|j: int| 0 <= j < pos_ ==> folded_height_after@[j] != h)''')])
+    # ------------------------------------------------------------------ verify_fri_circuit[final_query_point]: which point the final polynomial is evaluated at
+    fp = u.extract(V, '', 'verify_fri_circuit', 'verify_fri_circuit[final_query_point]')
+    slice_loop_body(fp, r'for \(q, query_proof\) in fri_proof_targets\.query_proofs\.iter\(\)\.enumerate\(\) \{',
+                    'the per-query loop (second of the two loops over the query proofs); everything but the computation of the final query point is dropped by the projection', nth=1, of=2)
+    project_on(fp, r'let ', {'final_query_point'}, 'statements of the per-query loop body that do not mention final_query_point')
+    fp.rewrite_re('R13', r'let final_poly_eval\s*=\s*evaluate_polynomial\([^;]*\);', '', min_count=0)
+    fp.body = fp.body.rstrip()[:-1] + '\nfinal_query_point\n}'
+    fp.rewrites.append(('R13', 'the slice returns the local `final_query_point`', ''))
+    common(fp)
+    fp.rewrite_re('R6', r'&index_bits_per_query\[q\]', 'index_bits_per_query[q].as_slice()', min_count=0)
+    fp.rewrite_re('R6', r'&powers_of_g_final\b', 'powers_of_g_final.as_slice()', min_count=0)
+    fp.set_sig('R11', 'fn final_query_point_of_query<EF: FoldX>(builder: &mut CircuitBuilder<EF>, index_bits_per_query: &Vec<Vec<Target>>, q: usize, log_max_height: usize, total_log_reduction: usize, num_phases: usize, '
+                      'powers_of_g_final: &Vec<Target>) -> Target', sliced=True)
+    BQ = 'index_bits_per_query@[q as int]@'
+    fp.requires('allocated', f'q < index_bits_per_query@.len() && old(builder).has_all({BQ}) && old(builder).has_all(powers_of_g_final@) '
+                             f'&& total_log_reduction <= log_max_height <= {BQ}.len() && all_bool(old(builder).vals_of({BQ}))')
+    fp.ensures('frame', 'final(builder).extends_pure(old(builder)) && final(builder).has(ret)')
+    fp.ensures('the_final_polynomial_is_evaluated_at_the_point_left_after_all_folded_bits',
+               '({ let b = old(builder); let n = imin(log_max_height as int, powers_of_g_final@.len() as int); '
+               f'final(builder).val(ret) == selprod(final_bits(b.vals_of({BQ}), log_max_height as int, total_log_reduction as int), b.vals_of(powers_of_g_final@), n) }})')
+    u.text('verus! { mod final_point_step { use super::*;\n' + FQ_SPECS + stub_final_query_point(u))
+    u.emit(fp)
+    u.text('} }')
     u.text('verus! { mod commit_phase_step { use super::*;')
     u.emit(f)
     u.text('} mod roll_in_step { use super::*;')
